@@ -138,7 +138,10 @@ def run_verus(path, meta, workdir, rlimit=None, threads=8, timeout=900, extra=No
         clause_line = None
         for s in prim:
             if s.get('text'):
-                clause = s['text'][0]['text'].strip()
+                clause = ' '.join(t['text'].strip() for t in s['text'][:1])
+                if len(s['text']) > 1:
+                    # multi-line clause: keep the first line and the most specific commented sub-clause lines
+                    clause = ' '.join(t['text'].strip() for t in s['text'][:2])
                 clause_line = s['line_start']
         labels = [(s.get('label') or '', (s['text'][0]['text'].strip() if s.get('text') else ''), s['line_start'])
                   for s in spans]
